@@ -62,8 +62,31 @@ func safeTypeName(t types.Type) (string, bool) {
 
 // indirectArg0: v == safehtmlutil.Indirect(args[0]) for the variadic parameter.
 func indirectArg0(fn *ssa.Function, v ssa.Value) bool {
+	return indirectArg0D(fn, v, 0)
+}
+
+func indirectArg0D(fn *ssa.Function, v ssa.Value, depth int) bool {
 	c, ok := isCallTo(v, pkgUtil+".Indirect")
 	if !ok {
+		// a helper of the package applied to the variadic parameter, each of whose returns is nil
+		// (nothing to assert on) or Indirect(its parameter[0])
+		if call, isCall := v.(*ssa.Call); isCall && depth < 3 && len(fn.Params) > 0 {
+			if h := staticCallee(call.Common()); h != nil && h.Pkg == fn.Pkg && h.Blocks != nil && len(h.Params) == 1 &&
+				len(call.Common().Args) == 1 && call.Common().Args[0] == ssa.Value(fn.Params[len(fn.Params)-1]) && h.Signature.Results().Len() == 1 {
+				n := 0
+				for _, ret := range Returns(h) {
+					rv := ret.Results[0]
+					if k, isK := rv.(*ssa.Const); isK && k.Value == nil {
+						continue
+					}
+					if !indirectArg0D(h, rv, depth+1) {
+						return false
+					}
+					n++
+				}
+				return n > 0
+			}
+		}
 		return false
 	}
 	a := c.Common().Args[0]
@@ -200,6 +223,10 @@ func summariseSanitizer(p *Program, pv *Prov, fn *ssa.Function) *sanSummary {
 						if lk, ok := g.Cond.(*ssa.Lookup); ok && g.Pol && lk.Index == v {
 							member = true
 						}
+					}
+					if !member {
+						// another spelling of a membership test (==, switch): decided by language
+						_, member = enumWordsOf(p, fn)
 					}
 					if member {
 						s.Returns = append(s.Returns, sanReturn{Kind: "member", Pos: pos})
